@@ -6,6 +6,7 @@ GEN: exported histories are replayed on real FrozenDict / struct.dataclass objec
      FrozenDict ever created is compared with the specification, together with ==, hash (order-free), pickle, pytree round trip.
 """
 import dataclasses
+import collections
 import os
 import pickle
 import sys
@@ -37,12 +38,17 @@ def frozen_part(chk):
       x = unfreeze(x)
     if isinstance(x, dict):
       return {k: real_val(v) for k, v in x.items()}
+    if isinstance(x, list):          # rendering "list-wrapped": a nested mapping stored as a one-element list
+      return real_val(x[0])
     return int(x)
 
   def replay(hist, idx):
     obj = {1: {}}
+    origin = {1: 'source'}
+    # rendering of nested mappings created by the user: plain dict / a dict subclass / a dict inside a one-element list
+    flavour = ('dict', 'OrderedDict', 'list-wrapped')[idx % 3]
     sig = '>'.join(e['op']['o'] + ''.join(str(e['op'].get(f, '')) for f in ('d', 'src', 'fd', 'add', 'key', 'v')) for e in hist)
-    key = 'C15:frozen:' + sig
+    key = 'C15:frozen:' + sig + ('' if flavour == 'dict' else ':' + flavour)
     for step, e in enumerate(hist):
       op = e['op']
       o = op['o']
@@ -55,9 +61,10 @@ def frozen_part(chk):
           else:
             d[op['key']] = op['v']
         elif o == 'nest':
-          new = {'a': 1}
-          obj[op['d']][op['key']] = new
+          new = collections.OrderedDict(a=1) if flavour == 'OrderedDict' else {'a': 1}
+          obj[op['d']][op['key']] = [new] if flavour == 'list-wrapped' else new
           obj[op['new']] = new
+          origin[op['new']] = 'source'      # created by the user: a source object once its parent is handed to freeze / copy
         elif o == 'putfd':
           obj[op['d']][op['key']] = obj[op['fd']]
         elif o == 'freeze':
@@ -96,8 +103,13 @@ def frozen_part(chk):
       if o == 'unfreeze':
         top = heap[op['new'] - 1]
         for k, v in top['e'].items():
-          if v < 0 and isinstance(obj[op['new']].get(k), dict):
-            obj[-v] = obj[op['new']][k]
+          got_k = obj[op['new']].get(k)
+          if isinstance(got_k, list) and got_k:
+            got_k = got_k[0]
+          if v < 0 and isinstance(got_k, dict):
+            obj[-v] = got_k
+            origin[-v] = 'unfreeze-result'
+        origin[op['new']] = 'unfreeze-result'
       # compare every FrozenDict ever created and every held plain dict with the specification
       for i, v in e['vals']:
         if i not in obj:
@@ -109,15 +121,25 @@ def frozen_part(chk):
           return key, f'step {step}: cannot read object {i}: {type(ex).__name__}'
         if got != want:
           kind = heap[i - 1]['k']
-          return key, (f'step {step} ({op}): ' + ('FrozenDict' if kind == 'fd' else 'dict') + f' #{i} has value {got}, specification {want}'
-                       + (' — a FrozenDict changed after construction' if kind == 'fd' else ''))
+          where = ''
+          if kind == 'fd' and flavour == 'list-wrapped' and o == 'set':
+            where = ':' + origin.get(op['d'], 'source') + '-mutated'
+          return key + where, (f'step {step} ({op}): ' + ('FrozenDict' if kind == 'fd' else 'dict') + f' #{i} has value {got}, specification {want}'
+                               + (' — a FrozenDict changed after construction' if kind == 'fd' else ''))
         if heap[i - 1]['k'] == 'fd':
           fd = obj[i]
+          if isinstance(fd, list) and flavour == 'list-wrapped':
+            return key + ':index-returns-stored-list', (f'step {step} ({op}): indexing returned the list stored inside the FrozenDict (with the '
+                                                        'mutable dict it contains), not an immutable / copied value')
           if not isinstance(fd, FrozenDict):
             return key, f'step {step}: object {i} is {type(fd).__name__}, expected FrozenDict'
-          twin = FrozenDict({k: (dict(reversed(list(x.items()))) if isinstance(x, dict) else x) for k, x in reversed(list(want.items()))})
+          def rev(x):
+            if isinstance(x, dict):
+              return {k: rev(v) for k, v in reversed(list(x.items()))}
+            return [rev(v) for v in x] if isinstance(x, list) else x
+          twin = FrozenDict(rev(unfreeze(fd)))      # equal contents, other insertion order
           try:
-            if fd != twin or hash(fd) != hash(twin):
+            if fd != twin or (flavour != 'list-wrapped' and hash(fd) != hash(twin)):      # (list values are not hashable)
               return key, f'step {step}: FrozenDict #{i} {got} is not equal / hash-equal to an equal FrozenDict built in another order'
             if pickle.loads(pickle.dumps(fd)) != fd:
               return key, f'step {step}: pickle round trip of FrozenDict #{i} is not equal'
@@ -135,6 +157,23 @@ def frozen_part(chk):
             return key, 'FrozenDict accepted item assignment'
           except (ValueError, TypeError):
             pass
+    # finally: whatever unfreeze returns is the caller's own - mutate every dict / list inside it, at any depth
+    def poison(x):
+      if isinstance(x, dict):
+        for v in list(x.values()):
+          poison(v)
+        x['__poison__'] = 1
+      elif isinstance(x, list):
+        for v in x:
+          poison(v)
+        x.append('__poison__')
+    for i, fd in list(obj.items()):
+      if isinstance(fd, FrozenDict):
+        before = pickle.dumps(jax.tree_util.tree_map(lambda v: v, dict(fd._dict)) if False else repr(fd))
+        for how, fn in (('unfreeze', unfreeze), ('.unfreeze()', lambda f: f.unfreeze())):
+          poison(fn(fd))
+          if pickle.dumps(repr(fd)) != before:
+            return key + ':unfreeze-result-mutated', f'mutating the value returned by {how}(FrozenDict #{i}) changed the FrozenDict: now {fd}'
     return None
 
   mc = tlc.require_ok(tlc.run('FrozenHeap', 'FrozenHeap_mc.cfg', workers=16, timeout=1800), 'FrozenHeap MC')
@@ -187,6 +226,13 @@ def struct_part(chk):
       cls = struct.dataclass(type('S', (), ns))
     elif variant == 1:
       cls = type('SN', (struct.PyTreeNode,), ns)
+    elif variant == 4:
+      base = type('SNB', (struct.PyTreeNode,), ns)
+
+      class Child(base):      # a PyTreeNode subclass of a PyTreeNode subclass that adds only a method
+        def total(self):
+          return self.f1
+      cls = Child
     else:
       base = struct.dataclass(type('SB', (), ns))
 
@@ -205,7 +251,7 @@ def struct_part(chk):
       continue
     seen.add(s)
     layout = beh['layout']
-    variant = idx % 4
+    variant = idx % 5
     cls = get_class(layout, variant)
     data = [f for f in ('f1', 'f2', 'f3') if layout[f] == 'data']
     key = 'C15:struct:' + ''.join(layout[f][0] for f in ('f1', 'f2', 'f3')) + f':v{variant}:' + '>'.join(e['op'] for e in beh['h'])
